@@ -6,6 +6,8 @@ import (
 	"fmt"
 	"log"
 	"sync"
+
+	"git.torproject.org/pluggable-transports/snowflake.git/v2/common/verifhook"
 )
 
 // Peers is a container that keeps track of multiple WebRTC remote peers.
@@ -70,6 +72,7 @@ func (p *Peers) Collect() (*WebRTCPeer, error) {
 	if nil != err {
 		return nil, err
 	}
+	verifhook.Point("client.peers.collect.before-handover", p)
 	// Track new valid Snowflake in internal collection and pass along.
 	p.activePeers.PushBack(connection)
 	p.snowflakeChan <- connection
@@ -123,6 +126,7 @@ func (p *Peers) purgeClosedPeers() {
 // collection of future Peers.
 func (p *Peers) End() {
 	close(p.melt)
+	verifhook.Point("client.peers.end.after-melt", p)
 	p.collectLock.Lock()
 	defer p.collectLock.Unlock()
 	close(p.snowflakeChan)
